@@ -316,6 +316,8 @@ def run_c03_part(out, tier, seed, wd):
     W_OPTS.update({"deadline": 20, "timeout": 300} if quick else {"deadline": 60, "timeout": 1500})
     n = 110 if quick else 2000
     scs = [gen_sess.gen_idle(seed, i) for i in range(n)] + [d for d in gen_sess.directed() if d["name"].startswith("dir-idle-")]
+    # replies for one binary connection produced by several goroutines at the same moment (slow reader)
+    scs += [gen_sess.gen_par(seed, i) for i in range(24 if quick else 400)]
     sub = os.path.join(wd, "c03w")
     os.makedirs(sub, exist_ok=True)
     binp = os.path.join(wd, "server.test")
